@@ -213,3 +213,154 @@ func boundaryScenario(p *load.Program, fn *ssa.Function, pair [2]string, two, co
 	}
 	return "ok", fmt.Sprintf("%d feasible path(s), %d refuted by their own decisions", feasible, refuted), nil
 }
+
+// joinRule (P15): the lines of one statement reach the parser joined by exactly
+// one line break each, whether the last of them was read with or without the
+// end of input. Loop is interpreted for two reads: a line that opens a block,
+// then the line that closes it -- arriving together with the read error (a
+// file without a final line break) or without it. The one submission must be
+// the two lines with one line break between them: without it the closing
+// brace lands on the previous line's last token, and a multi-line string loses
+// a line break (seed C16-S; the two end-of-input checks of Loop folded into
+// one that appended the last line bare).
+func joinRule(p *load.Program, s *oblig.Set) {
+	fn := p.Func("types/node", "Loop")
+	if fn == nil {
+		return
+	}
+	pos := p.Pos(fn.Pos())
+	intT := types.Typ[types.Int]
+	strT := types.Typ[types.String]
+	for _, withErr := range []bool{false, true} {
+		key := "node.Loop / the lines of a statement are joined by one line break each"
+		if withErr {
+			key += " (last line read together with the end of input)"
+		}
+		for _, concrete := range []bool{false, true} {
+			in := absint.NewInterp(p.SSA, &absint.Oracle{})
+			in.MaxStep = 50000
+			reads := 0
+			scanned, counted := false, false
+			var submitted []absint.Val
+			line := func(i int) absint.Val {
+				if concrete {
+					return absint.MkString(map[int]string{1: "f = () -> {", 2: "}"}[i])
+				}
+				return absint.NewVar(fmt.Sprintf("LINE%d", i), strT)
+			}
+			in.Hooks.Invoke = func(in *absint.Interp, recv absint.Val, m *types.Func, args []absint.Val, site ssa.Instruction) (absint.Val, bool) {
+				if m.Name() == "Parse" && len(args) == 1 {
+					submitted = append(submitted, args[0])
+					sig := m.Type().(*types.Signature)
+					return &absint.Tuple{E: []absint.Val{absint.Const{T: sig.Results().At(0).Type()}, absint.Const{T: sig.Results().At(1).Type()}}}, true
+				}
+				if m.Name() != "read" {
+					return nil, false
+				}
+				reads++
+				errT := m.Type().(*types.Signature).Results().At(1).Type()
+				eof := func() absint.Val {
+					ec := in.NewCell(absint.NewVar("eof", nil), "EOF")
+					return &absint.Iface{T: types.NewPointer(intT), V: &absint.Ptr{Cell: ec}}
+				}
+				switch {
+				case reads == 1:
+					return &absint.Tuple{E: []absint.Val{line(1), absint.Const{T: errT}}}, true
+				case reads == 2 && withErr:
+					return &absint.Tuple{E: []absint.Val{line(2), eof()}}, true
+				case reads == 2:
+					return &absint.Tuple{E: []absint.Val{line(2), absint.Const{T: errT}}}, true
+				}
+				return &absint.Tuple{E: []absint.Val{absint.MkString(""), eof()}}, true
+			}
+			in.Hooks.Branch = func(in *absint.Interp, cond absint.Val, site ssa.Instruction) (bool, bool) {
+				ck := absint.Key(cond)
+				// a text that contains one of the (non-empty) lines is not empty
+				if c, ok := cond.(*absint.Sym); ok && (c.Op == "==" || c.Op == "!=") && len(c.Args) == 2 {
+					for i := 0; i < 2; i++ {
+						if e, isC := absint.ConstString(c.Args[i]); isC && e == "" {
+							for _, leaf := range concatLeaves(c.Args[1-i]) {
+								if leaf == "LINE1" || leaf == "LINE2" {
+									return c.Op == "!=", true
+								}
+							}
+						}
+					}
+				}
+				for i := 1; i <= 2; i++ {
+					l := fmt.Sprintf("LINE%d", i)
+					if isTest, saysEmpty := emptinessTest(ck, l); isTest {
+						return !saysEmpty, true
+					}
+					if strings.Contains(ck, "len("+l+")") || strings.Contains(ck, "index("+l) || strings.Contains(ck, "strindex("+l) {
+						scanned = true
+					}
+				}
+				return false, false
+			}
+			in.Hooks.Call = func(in *absint.Interp, callee *ssa.Function, args []absint.Val, site ssa.Instruction) (absint.Val, bool) {
+				switch {
+				case callee.Name() == "processInput":
+					submitted = append(submitted, args[0])
+					return nil, true
+				case callee.String() == "strings.Count" && !concrete:
+					counted = true
+					sub, _ := absint.ConstString(args[1])
+					switch absint.Key(args[0]) + " " + sub {
+					case "LINE1 {", "LINE2 }":
+						return absint.MkInt(1), true
+					}
+					return absint.MkInt(0), true
+				case callee.Pkg != nil && callee.Pkg.Pkg.Path() != load.ModPath+"/types/node" && !concrete:
+					if callee.Signature.Results().Len() == 1 {
+						return &absint.Sym{Op: callee.String(), Args: args, T: callee.Signature.Results().At(0).Type()}, true
+					}
+				}
+				return nil, false
+			}
+			args := []absint.Val{absint.NewVar("READER", fn.Params[0].Type()), absint.NewVar("PARSER", fn.Params[1].Type()), absint.NewVar("VM", fn.Params[2].Type()), absint.NewVar("DOOUT", types.Typ[types.Bool])}
+			_, end := in.Run(fn, args)
+			if !concrete && (scanned || !counted) {
+				continue // the driver scans the lines itself: judged on the concrete pair
+			}
+			if end != nil {
+				s.Unk("P15", key, pos, "the loop could not be evaluated: "+end.Error(), in.CondLog...)
+				break
+			}
+			var parts []string
+			if len(submitted) == 1 {
+				parts = concatLeaves(submitted[0])
+			}
+			want := []string{"LINE1", "\"\\n\"", "LINE2"}
+			if concrete {
+				want = []string{"\"f = () -> {\\n}\""}
+			}
+			if len(submitted) == 1 && strings.Join(parts, " ") == strings.Join(want, " ") {
+				how := ""
+				if concrete {
+					how = " (the driver scans the lines itself: judged on a concrete pair of lines)"
+				}
+				s.OK("P15", key, pos, "one submission: the opening line, one line break, the closing line"+how)
+			} else {
+				var got []string
+				for _, v := range submitted {
+					got = append(got, strings.Join(concatLeaves(v), " + "))
+				}
+				s.Bad("P15", key, pos, fmt.Sprintf("a block opened on one line and closed on the next must reach the parser once, as the two lines with one line break between them; it reaches it as %d submission(s): [%s]", len(submitted), strings.Join(got, " | ")), in.CondLog...)
+			}
+			break
+		}
+	}
+}
+
+// concatLeaves flattens a string concatenation into its operands, leaving out
+// empty strings.
+func concatLeaves(v absint.Val) []string {
+	if s, ok := v.(*absint.Sym); ok && s.Op == "+" && len(s.Args) == 2 {
+		return append(concatLeaves(s.Args[0]), concatLeaves(s.Args[1])...)
+	}
+	if c, ok := absint.ConstString(v); ok && c == "" {
+		return nil
+	}
+	return []string{absint.Key(v)}
+}
